@@ -1425,6 +1425,7 @@ EGLPNUM_TYPENAME_QSLIB_INTERFACE int EGLPNUM_TYPENAME_QSchange_senses (
 	rval = EGLPNUM_TYPENAME_ILLlib_chgsense (p->lp, num, rowlist, sense);
 	CHECKRVALG (rval, CLEANUP);
 
+	p->factorok = 0;							/* the sign of a logical column may have changed */
 	free_cache (p);
 
 CLEANUP:
